@@ -46,6 +46,8 @@ func violateRT(c *h.Ctx, p *path.Path, clause string, feat map[string]string, de
 	}
 }
 
+var c02Seq int
+
 func roundTrip(c *h.Ctx, p *path.Path, src string, docs []string, r *rand.Rand) {
 	c.Eval(1)
 	cs := inputCase(src, "")
@@ -82,6 +84,26 @@ func roundTrip(c *h.Ctx, p *path.Path, src string, docs []string, r *rand.Rand) 
 		violateRT(c, p, "tree", h.F("kind", diffKind(t1, t2)), fmt.Sprintf("String() = %q re-parses to %s; original tree %s", s1, t2, t1), cs)
 	} else {
 		c.Held("tree")
+	}
+	// the canonical text keeps meaning this path whatever was done to a Path
+	// that an earlier Parse of the same text returned (here: reused as the
+	// destination of another path's text)
+	c02Seq++
+	if c02Seq%7 == 0 && t1 == t2 {
+		if d, err := path.Parse(s1); err == nil {
+			other := []string{`strict $.c02."reused"[last] ? (@ > 16)`, `$.tags[*]`, `$.price > 10`}[c02Seq/7%3]
+			if d.UnmarshalText([]byte(other)) == nil {
+				p3, err3, pan3 := h.ParseSafe(s1)
+				switch {
+				case pan3 != "" || err3 != nil:
+					c.Violate("reparse", h.F("kind", "after-reuse"), fmt.Sprintf("String() = %q parsed before; after the Path that Parse returned for it was reused for %q it is rejected: %v %s", s1, other, err3, pan3), cs)
+				case gen.FromAST(p3.AST).Sexp() != t1:
+					c.Violate("tree", h.F("kind", "after-reuse"), fmt.Sprintf("String() = %q re-parses to %s after the Path an earlier Parse of it returned was reused for %q; original tree %s", s1, gen.FromAST(p3.AST).Sexp(), other, t1), cs)
+				default:
+					c.Held("tree")
+				}
+			}
+		}
 	}
 	if p.IsLax() != p2.IsLax() || p.IsPredicate() != p2.IsPredicate() {
 		violateRT(c, p, "flags", h.F("kind", "mode-or-pred"), fmt.Sprintf("mode/predicate flag changed by the round trip of %q", s1), cs)
